@@ -318,6 +318,23 @@ class Source:
         return None
 
 
+def find_anywhere(src, pattern):
+    """the pattern in ANY function of the file (a private function was renamed): first match or None"""
+    rx = compile_pattern(pattern)
+    for name in dict.fromkeys(re.findall(r"\bfn\s+([a-z_]\w*)", src.text)):
+        try:
+            m = rx.search(" " + src.body(name) + " ")
+        except Exception:
+            continue
+        if m:
+            m_name[0] = name
+            return m
+    return None
+
+
+m_name = [None]   # name of the function in which the last find_anywhere matched
+
+
 _PAT_CACHE = {}
 
 
